@@ -121,15 +121,15 @@ theorem count_split {n : Nat} {L : List Nat} (g : Graph α) (hn : L.Nodup)
 /-! ### the invariant -/
 
 /-- `m`: outer-loop position; `C`: the (non-self) receiver entries counted so far -/
-structure Inv (n : Nat) (g : Graph α) (m : Nat) (C : List Nat) (k : Kahn) : Prop where
+structure KInv (n : Nat) (g : Graph α) (m : Nat) (C : List Nat) (k : Kahn) : Prop where
   nd : (k.stack ++ k.out).Nodup
   lt : ∀ r, r ∈ k.stack ++ k.out → r < n
   cnt : ∀ r, k.cnt r = C.count r + selfBit g k.out r
   mem : ∀ r, r ∈ k.stack ++ k.out ↔
           (dc g r = 0 ∧ r < m) ∨ (0 < dc g r ∧ dc g r ≤ C.count r)
 
-theorem Inv.recv {n m : Nat} {C : List Nat} {k : Kahn} {g : Graph α} (h : Inv n g m C k)
-    {r : Nat} (hr : r < n) : Inv n g m (C ++ [r]) (kahnRecv (dc g) k r) := by
+theorem KInv.recv {n m : Nat} {C : List Nat} {k : Kahn} {g : Graph α} (h : KInv n g m C k)
+    {r : Nat} (hr : r < n) : KInv n g m (C ++ [r]) (kahnRecv (dc g) k r) := by
   have hc := h.cnt r
   have hm := h.mem r
   have he := selfBit_le g k.out r
@@ -200,9 +200,9 @@ theorem Inv.recv {n m : Nat} {C : List Nat} {k : Kahn} {g : Graph α} (h : Inv n
             · exact hm.mp (he1 hh)
       · rw [count_snoc_ne C e]; exact h.mem r'
 
-theorem Inv.fold {n m : Nat} {g : Graph α} : ∀ (l : List Nat) {C : List Nat} {k : Kahn},
-    Inv n g m C k → (∀ r, r ∈ l → r < n) →
-    Inv n g m (C ++ l) (l.foldl (kahnRecv (dc g)) k) ∧
+theorem KInv.fold {n m : Nat} {g : Graph α} : ∀ (l : List Nat) {C : List Nat} {k : Kahn},
+    KInv n g m C k → (∀ r, r ∈ l → r < n) →
+    KInv n g m (C ++ l) (l.foldl (kahnRecv (dc g)) k) ∧
       (l.foldl (kahnRecv (dc g)) k).out = k.out := by
   intro l
   induction l with
@@ -218,7 +218,7 @@ theorem Inv.fold {n m : Nat} {g : Graph α} : ∀ (l : List Nat) {C : List Nat} 
 
 /-- boundary invariant (between two pops of the stack) -/
 structure BInv (n : Nat) (g : Graph α) (m : Nat) (k : Kahn) : Prop where
-  inv : Inv n g m (k.out.flatMap (ent g)) k
+  inv : KInv n g m (k.out.flatMap (ent g)) k
   pw : k.out.Pairwise (fun a b => a ∉ g.recv b)
 
 /-- the body of one drain iteration -/
@@ -300,7 +300,7 @@ theorem BInv.pop {n m : Nat} {g : Graph α} {rank : Nat → Nat} (hd : KDag n g 
       rw [flatMap_append, flatMap_singleton, ent_self hself, append_nil, hmem' r]
       exact hI.mem r
   · -- proper row: all entries are counted
-    have h0 : Inv n g m (k.out.flatMap (ent g))
+    have h0 : KInv n g m (k.out.flatMap (ent g))
         { cnt := k.cnt, stack := st, out := k.out ++ [s] } := by
       refine ⟨hnd', ?_, ?_, ?_⟩
       · intro r hr; exact hI.lt r ((hmem' r).mp hr)
@@ -310,7 +310,7 @@ theorem BInv.pop {n m : Nat} {g : Graph α} {rank : Nat → Nat} (hd : KDag n g 
       · intro r
         show r ∈ st ++ (k.out ++ [s]) ↔ _
         rw [hmem' r]; exact hI.mem r
-    have hf := Inv.fold (g.recv s) h0 (hd.recv_lt s hsn)
+    have hf := KInv.fold (g.recv s) h0 (hd.recv_lt s hsn)
     have hout : (popStep g k s st).out = k.out ++ [s] := hf.2
     refine ⟨⟨?_, ?_⟩, hout⟩
     · rw [hout, flatMap_append, flatMap_singleton, ent_ne hself]
@@ -359,7 +359,7 @@ def init : Kahn := { cnt := fun _ => 0, stack := [], out := [] }
 theorem dfsTopDown_eq (n : Nat) (g : Graph α) :
     dfsTopDown n g = ((List.range n).foldl (outer n g) init).out.reverse := rfl
 
-theorem init_inv (n : Nat) (g : Graph α) : BInv n g 0 init := by
+theorem kinit_inv (n : Nat) (g : Graph α) : BInv n g 0 init := by
   refine ⟨⟨?_, ?_, ?_, ?_⟩, ?_⟩
   · simp [init]
   · intro r hr; simp [init] at hr
@@ -421,7 +421,7 @@ theorem loop_spec {n : Nat} {g : Graph α} {rank : Nat → Nat} (hd : KDag n g r
       ((List.range m).foldl (outer n g) init).stack = [] := by
   intro m
   induction m with
-  | zero => intro _; exact ⟨init_inv n g, rfl⟩
+  | zero => intro _; exact ⟨kinit_inv n g, rfl⟩
   | succ m ih =>
     intro hm
     have h := ih (by omega)
